@@ -45,3 +45,17 @@ def replay(v, drv):
     real = DocumentationAggregator.clean_doc_lines(list(v['lines']))
     exp = (v.get('detail') or {}).get('expected')
     return dict(fails=exp is not None and real != exp, real=real, expected=exp, lines=v['lines'])
+
+
+def l0_table_suite(out, drv):
+    """L0, exhaustively: the code points the model takes for Python white space (`str.strip()`/`rstrip()`/`split()` without arguments, used by the
+    module-name doccomment, by pathspec's pattern clean-up and by confuse's StrSeq) against `str.isspace()` for every code point, and the
+    model's lower-casing of command names against `str.lower()` on ASCII (identifiers are ASCII by the token rule)"""
+    r = drv.run([dict(op='pyspace')])[0]
+    real = [c for c in range(0x110000) if chr(c).isspace()]
+    out.traces_validated += 1; out.dist['L0:code points compared'] += 0x110000
+    if r['spaces'] != real:
+        out.disagreements.append(dict(suite='L0-tables', key='isspace', detail=dict(kind='white-space set', only_model=sorted(set(r['spaces']) - set(real))[:10], only_python=sorted(set(real) - set(r['spaces']))[:10])))
+    if r['lower'] != ''.join(chr(c) for c in range(128)).lower():
+        out.disagreements.append(dict(suite='L0-tables', key='lower', detail=dict(kind='ASCII lower-casing')))
+    out.suites.append(dict(name='L0-tables', cases=2))
